@@ -32,7 +32,7 @@ def depth(m):
     return d
 
 
-def layout_jobs(tier, prefix, harness, entry, srcs, engine='A', shapes=None, kw=None, ranged=True):
+def layout_jobs(tier, prefix, harness, entry, srcs, engine='A', shapes=None, kw=None, ranged=True, skip=None):
     """jobs over (shape, truncation length) and (shape, hostile framing word, value split)"""
     jobs = []
     S = wire.std_shapes(tier)
@@ -48,6 +48,7 @@ def layout_jobs(tier, prefix, harness, entry, srcs, engine='A', shapes=None, kw=
         for k in range(W):
             for spec in wire.hostile_splits(toks, k, ranged=ranged, dense=(tier != 'quick')):
                 if spec[0] == 'const' and spec[1] == wire.word_values(toks)[k]: continue   # that is the 'full' job
+                if skip and skip(sname, labels[k], spec): continue
                 tag = 'word%d[%s]=%s' % (k, labels[k], spec[1] if spec[0] == 'const' else '%d..2^32-1' % spec[1])
                 jobs.append(mk(tag, wire.gen_c(m, hostile=(k, spec)), 'hostile/' + labels[k].split('(')[0], spec + (labels[k],) if spec[0] == 'const' else spec))
     return jobs
@@ -81,8 +82,13 @@ def mm_jobs(tier):
               'FreeMMessageField.0': items, 'FreeMMessageField.1': items, 'MMPutMessageField.0': sub, 'PutMMVariableFieldAux.0': items}
         return dict(cdefs={'VERIF_ALLOC_ONE': one, 'VERIF_ALLOC_TOTAL': 16 * full + 2048}, force_include=['harness/c/valloc.h'], unwind=6, unwindset=us,
                     mode='mem', object_bits=12, unwind_is_property=True, timeout=(40 if tier == 'quick' else 300))
-    shapes = ['i32x2', 'str2', 'msg1'] if tier == 'quick' else None
-    return layout_jobs(tier, 'mm_parse', 'harness/c/mm_parse.c', 'harness_mm_parse', MM_SRC, shapes=shapes, kw=kw, ranged=False)
+    shapes = ['i32x2', 'str2', 'raw2'] if tier == 'quick' else None
+    def skip(sname, label, spec):
+        # a hostile value here moves the framing onto SYMBOLIC payload bytes (an unknown type code makes the int32 payload the item count and item lengths; a
+        # string length of 0/1 makes the string's bytes the next length word): sizes become symbolic and the job does not finish in the quick budget (measured).
+        if tier != 'quick': return False
+        return (sname == 'i32x2' and label.startswith('typeCode')) or (sname in ('str2', 'raw2') and (label.startswith('strLen(s[0])') or label.startswith('blobLen(w[0])')) and spec[1] in (0, 1, 2))
+    return layout_jobs(tier, 'mm_parse', 'harness/c/mm_parse.c', 'harness_mm_parse', MM_SRC, shapes=shapes, kw=kw, ranged=False, skip=skip)
 
 
 def run(tier, seed):
